@@ -14,8 +14,9 @@ CLAIMED = {
         text="Proof (Lean 4): sf_format_check is transcribed case by case and proved equivalent — for every format word whose container and encoding the build "
              "enumerates, every endianness word, ALL channel counts and ALL sample rates — to the model of sf_open(SFM_WRITE) written from psf_open_file and the 23 "
              "container open routines (gate, header writer, codec dispatch, writers installed), and to the whole experiment (4 typed writes, close, temp residue, re-open as the "
-             "same container and encoding). The full statements are refuted with concrete witnesses and proved outside three known-finding classes (rate 0; OKI/VOX odd counts; "
-             "IRCAM rates >= 2^31-64; CAF/ALAC > 8 channels is repaired in /repo and kept as a regression witness). The enumeration lists are extracted by execution each run and proved duplicate-free, well-formed, all simple formats writable, "
+             "same container and encoding). The full statements are refuted with concrete witnesses and proved outside two known-finding classes (rate 0, which the library's own test-suite requires sf_format_check to accept; "
+             "OKI/VOX odd counts). Repaired and kept as regression witnesses / _old_rule theorems: CAF/ALAC > 8 channels, IRCAM rates >= 2^31-64 (ircam_rate_old_rule), the SIGFPE of the "
+             "HTK / SDS / VOC header writers at 0 Hz (rate0_open_fails_cleanly, rate0_died_old_rule). The enumeration lists are extracted by execution each run and proved duplicate-free, well-formed, all simple formats writable, "
              "every major with a usable subtype (kernel `decide`). Exhaustive correspondence on the complete 154 560-point grid and all enumeration indices ties the model to the code.",
         technique="Lean 4 theorems over a hand-written model + exhaustive correspondence on the complete grid (lists extracted by execution)",
         design_ref="DESIGN.md §7 C10"),
@@ -64,7 +65,13 @@ CLAIMED["C02"] = dict(
          "cross-type agreement, byte (de)serialisation round trip) over all integers; the float/double kernels (normalisation, clipping, scale flags, lrint/SSE2 "
          "variants, G.711 entry points) are modelled bit-exactly on dyadic rationals and tied to the code by correspondence: exhaustive on all 2^8/2^16 codes and "
          "all 2^16 shorts for every encoding, boundary+seeded-random for 24/32-bit and floating inputs; the documented rule is re-evaluated on the implementation's "
-         "own output with exact rational arithmetic. Partial: float-kernel theorems (clip_saturates, float_read_exact) are being added.",
+         "own output with exact rational arithmetic. The float kernels are proved too (lean/SfProps/C02Float.lean, 33 theorems): round-to-nearest-even of the model's "
+         "rounding shift and of lrint (rneShr_half_ulp, rneShr_ties_to_even, rint_nearest_even, rint_monotone), exactness of int -> float for |x| < 2^24 / 2^53 and of float -> double, "
+         "float_read_exact / float_read_single_rounding (a file sample is read into float or double with at most one rounding, none when it fits the mantissa), "
+         "cross_type_agree_float, clip_in_range / clip_saturates / clip_monotone (clipping ON: every finite or infinite input lands in the integer range, saturating at both ends), "
+         "float_write_inrange (in-range values are written as the nearest integer; for 32-bit files through a float the full statement is refuted by double_rounding_witness / "
+         "float_write_w32_one_wraps and proved outside that case), norm_off_passthrough, scale_int_float_write_rule, float_int_read_rule and the G.711 float entry points "
+         "(g711_float_reads_index, g711_float_index_in_table). Partial only in that out-of-range unclipped float -> int conversions (undefined in C) are outside every theorem.",
     technique="Lean 4 theorems over a hand-written bit-exact kernel model + exhaustive/sampled correspondence through the RAW container",
     design_ref="DESIGN.md §7 C02")
 
@@ -113,6 +120,10 @@ CLAIMED["C04"] = dict(
          "Round 4 (vlib/small3.py, driver `sfmodel small3`): NIST/SPHERE (SfProps/C04Nist.lean: nist_reopen_info over the strstr / sscanf reader for every accepted configuration and session), "
          "VOC (C04Voc.lean: the divisor quantisers, voc_reopen_info_partial / voc_snapshot_valid_partial with the classes of KF-VOC-MONO-G711 / KF-VOC-UPDATE excluded and characterised exactly) and "
          "XI (C04Xi.lean: full strength since the repair of KF-XI-HEADER, xi_close_old_rule) have stand-alone byte-exact models of header, closed bytes of any session and reader.",
+         "rate quantiser per container) is written from the format definitions, not measured. Round 4 repairs, each with the model following the repaired code, a full-strength theorem "
+         "and the old rule's failure as an _old_rule theorem: WAV/GSM 6.10 pad byte (C04GsmPad: wav_gsm_reopen_frames), SVX/MPC2K 16-bit rate saturates (svx_rate, mpc2k_reopen_info), "
+         "IRCAM rate cap and big-endian channel guess (ircam_reopen_info for every accepted configuration), PVF 11-byte header (pvf_reopen_info outside the 11-byte-file class only). "
+         "Partial: header bytes of the other 17 containers are not modelled (covered by B).",
     technique="Lean 4 theorems over hand-written container models + differential correspondence (file bytes, parser verdicts) + predicate on implementation transcripts",
     design_ref="DESIGN.md §7 C04")
 CLAIMED["C07"] = dict(
